@@ -135,6 +135,7 @@ class Session:
         rec = CallRecord()
         rec.steps = rec.obj_calls = rec.generations = 0
         self.cur_opt, self.cur = opt, rec
+        sim._t_start = kernel._real_monotonic()        # the wall budget is per optimize() call, not per session
         sim.entropy_label = entropy_label
         sim._entropy_by_label.pop(repr(entropy_label), None)     # every call starts the label's sequence afresh
         c0 = dict(sim.counters)
